@@ -86,8 +86,21 @@ def run_(tier):
     logdir = os.path.join(vlib.BUILD, "race")
     shutil.rmtree(logdir, ignore_errors=True)
     os.makedirs(logdir)
-    obs = vlib.run_harness("concurrent", cases, "c10", race=True, shards=min(len(cases), 8), timeout=3000,
-                           env={"GORACE": "exitcode=0 halt_on_error=0 log_path=%s/race" % logdir})
+    try:
+        obs = vlib.run_harness("concurrent", cases, "c10", race=True, shards=min(len(cases), 8), timeout=3000,
+                               env={"GORACE": "exitcode=0 halt_on_error=0 log_path=%s/race" % logdir})
+    except vlib.Blocked:
+        raise
+    except vlib.Infra as e:
+        if "fatal error: concurrent map" not in str(e) or "amf-custom-validator/" not in str(e):
+            raise
+        V.disagree("the validator crashes when calls run concurrently (concurrent map access)", {"harness_stderr": str(e)[-3000:]})
+        for key, txt in race_reports(logdir):
+            V.disagree(key, {"race_report": txt})
+        vlib.write_evidence("C10", tier, {"states": mc.distinct, "transitions": mc.generated, "traces_validated_against_impl": 0,
+                                          "evaluations": len(cases), "distinct_nontrivial": 0, "samples": [str(e)[-500:]]},
+                            time.time() - t0, violations=len(V.violations))
+        return V.finish()
     for o in obs:
         if o.get("skipped"):
             raise vlib.Infra("concurrent case skipped: %s" % o["skipped"])
